@@ -10,7 +10,8 @@ PROPERTY_ID = "C05"
 LEVEL = "exploration"
 RULE = (
     "generated (series of pairwise distinct values, window_length, out-of-sample horizon, "
-    "0..2 exogenous columns, strategy, scitype, index origin); the arguments logged by "
+    "0..3 exogenous columns, strategy, scitype, index origin, float or int64 data, optionally on "
+    "a forecaster object fitted before on other data); the arguments logged by "
     "recording regressors are compared exactly with a reference tabularisation written from "
     "the definition, and forecasts of real regressors with a plain-loop reference procedure. "
     "non-trivial = gapped horizon, or exogenous data, or (window_length > 1 and max(fh) > 1); "
@@ -76,6 +77,13 @@ def oracle_recording(strategy, scitype):
         if isinstance(f, Raised):
             return [unexpected(f, "make_reduction")]
         fh_fit = gen.build_fh(steps, case["fh_kind"])
+        if case.get("prefit"):
+            # the forecaster object was fitted before, on a longer series with other values and
+            # another index origin: what the regressors see afterwards is the LAST training data
+            y0, X0 = build(dict(case, n=case["n"] + 4, vseed=case["vseed"] + 1, start=case["start"] + 3))
+            sut(f.fit, y0, X0, gen.build_fh(steps, case["fh_kind"]))
+            doubles.LOG.clear()
+            ctx.label("refitted")
         r = sut(f.fit, y, X, fh_fit)
         hmax_fit = 1 if strategy == "recursive" else steps[-1]
         feasible = n >= wl + hmax_fit
@@ -319,14 +327,16 @@ def cases(draw, strategy=None, allow_exog=True, feasible_bias=9):
         n = draw(st.integers(2, max(2, wl + max(hm, 1))))
     c = {
         "n": n, "wl": wl, "fh": fh,
-        "n_exog": draw(st.integers(0, 2)) if allow_exog else 0,
         "vseed": draw(st.integers(0, 10 ** 6)),
         "start": draw(gen.index_start), "index_kind": draw(gen.index_kind),
         "fh_kind": draw(st.sampled_from(["list", "array", "fh", "int"])),
         "fh_at_predict": draw(st.sampled_from(["none", "same"])),
         "scitype_arg": draw(st.sampled_from(["infer", "explicit"])),
         "dtype": draw(st.sampled_from(["float64", "float64", "int64"])),
+        "prefit": draw(st.integers(0, 4)) == 0,
+        "n_exog": 0,
     }
+    c["n_exog"] = draw(st.integers(0, 3)) if allow_exog else 0
     return c
 
 
